@@ -48,6 +48,42 @@ theorem offy_form (g : Grid) (y : Rat) : g.offy - y / g.dy = (g.y1 - y) / g.dy :
 theorem linesample_eq_cellOf (g : Grid) (x y : Rat) : linesampleCell g x y = cellOf g x y := by
   simp only [linesampleCell, linesample, validCell, cellOf, offx_form, offy_form]
 
+/-- the uint16 down-cast never turns an out-of-range index into a valid one (nor the converse):
+the marker `size` is representable whenever the cast is applied -/
+theorem downcast_valid_iff (idx : Int) (size : Nat) :
+    (0 ≤ downcast idx size ∧ downcast idx size < size) ↔ (0 ≤ idx ∧ idx < size) := by
+  unfold downcast
+  split
+  · rename_i h
+    split
+    · rename_i hout
+      have : ((size : Int) % 65536) = size := Int.emod_eq_of_lt (by omega) (by omega)
+      rw [this]; omega
+    · rename_i hin
+      have : idx % 65536 = idx := Int.emod_eq_of_lt (by omega) (by omega)
+      rw [this]
+  · rfl
+
+/-- **quick linesample arrays** (`utils.generate_quick_linesample_arrays`, down-cast included) -/
+theorem quickLinesample_eq_cellOf (g : Grid) (x y : Rat) : quickLinesampleCell g x y = cellOf g x y := by
+  rw [← linesample_eq_cellOf]
+  simp only [quickLinesampleCell, linesampleCell, validCell]
+  have h1 := downcast_valid_iff (linesample g x y).1 g.h
+  have h2 := downcast_valid_iff (linesample g x y).2 g.w
+  by_cases hv : 0 ≤ (linesample g x y).2 ∧ (linesample g x y).2 < g.w ∧ 0 ≤ (linesample g x y).1 ∧ (linesample g x y).1 < g.h
+  · have e1 : downcast (linesample g x y).1 g.h = (linesample g x y).1 := by
+      unfold downcast; split
+      · rw [if_neg (by omega)]; exact Int.emod_eq_of_lt (by omega) (by omega)
+      · rfl
+    have e2 : downcast (linesample g x y).2 g.w = (linesample g x y).2 := by
+      unfold downcast; split
+      · rw [if_neg (by omega)]; exact Int.emod_eq_of_lt (by omega) (by omega)
+      · rfl
+    rw [e1, e2]
+  · rw [if_neg hv, if_neg]
+    intro hc
+    exact hv ⟨(h2.mp ⟨hc.1, hc.2.1⟩).1, (h2.mp ⟨hc.1, hc.2.1⟩).2, (h1.mp ⟨hc.2.2.1, hc.2.2.2⟩).1, (h1.mp ⟨hc.2.2.1, hc.2.2.2⟩).2⟩
+
 /-- **GridFilter** -/
 theorem gridFilter_eq_cellOf (g : Grid) (x y : Rat) : gridFilterCell g x y = cellOf g x y := by
   have : x / g.dx + g.offx = (x - g.x0) / g.dx := by rw [add_comm]; exact offx_form g x
